@@ -17,6 +17,7 @@ import OFV.Proofs.C10Spin
 import OFV.Proofs.C10Lookup
 import OFV.Proofs.C10Entries
 import OFV.Proofs.C10Filter
+import OFV.Proofs.C10Sum
 
 namespace OFV.C10
 open OFV.Model OFV.Model.C10 OFV.Spec OFV.Spec.C10
@@ -247,6 +248,22 @@ the filter drops no contribution and keeps no vanishing one. -/
 theorem prefilter_exact (cr an : List Nat) (hc : cr.Nodup) (ha : an.Nodup) (d : Det) (m : Nat) (hag : Agree d m) :
     passes (noTerm cr an) d = true ↔ (actFTerm (noTerm cr an) m).isSome = true :=
   passes_iff_action cr an hc ha d m hag
+
+/-- **number_preserving_sparse_operator_sound**: for a normal-ordered operator (every term: creation operators on
+distinct modes, then annihilation operators on distinct modes, `NormalTerm`; normal ordering itself belongs to
+another property) the function returns the basis `_iterate_basis_(reference, level, spin_preserving)` and the matrix
+whose entry `(r, c)` is the Spec matrix element `⟨r| op |c⟩` between the basis states of determinants number `r` and
+`c` (`ms i`: any basis-state mask with the bits of determinant `i`) — the compression of the operator to the
+determinant basis: filter, sign / target loop, lookup, the `pos < size` guard and the accumulation over terms. -/
+theorem number_preserving_sparse_operator_sound (opNO : Op) (n ne : Nat) (spin : Bool) (ref : Option Det)
+    (level : Option Nat) (states : List Det) (M : SparseM)
+    (h : numberPreservingSparse opNO n ne spin ref level = .ok (states, M))
+    (hno : ∀ tc ∈ opNO, NormalTerm (npsRef n ne ref).length tc.1)
+    (ms : Nat → Nat) (hms : ∀ i, i < states.length → Agree (states.getD i []) (ms i))
+    (r c : Nat) (hr : r < states.length) (hc : c < states.length) :
+    states = iterateBasis (npsRef n ne ref) (level.getD ne) spin ∧
+      Dict.getD M (r, c) 0 = melF opNO (ms r) (ms c) :=
+  nps_sound opNO n ne spin ref level states M h hno ms hms r c hr hc
 
 /-- The big-endian integer encoding `determinant.dot(1 << arange(n)[::-1])` is injective on
 determinants of one length, so distinct basis determinants have distinct encodings. -/
